@@ -25,7 +25,9 @@ MERGED_ERR = {"meta": "C05", "dicts": "C06", "stored": "C05", "docnums": "C05", 
 
 def prop_of(prov, item):
     asp = item[0]
-    if asp == "posts-reuse" or (asp == "err" and item[1] == "reuse"):
+    if prov == "opened-merged-zero":
+        return "C05"
+    if asp in ("posts-reuse", "iter") or (asp == "err" and item[1] in ("reuse", "iter")):
         return "C07"   # postings list / iterator passed back in as preallocation
     if prov == "built":
         return BUILT_ERR.get(item[1], "C01") if asp == "err" else BUILT.get(asp, "C01")
